@@ -126,6 +126,12 @@ func (c *scriptedConn) readsStarted() int64 {
 }
 
 func (c *scriptedConn) Write(p []byte) (int, error) {
+	select {
+	case <-c.closedCh: // the stream closed the connection (shutdown): nothing can be written any more
+		c.log.add(J{"e": "WClosed"})
+		return 0, net.ErrClosed
+	default:
+	}
 	c.wmu.Lock()
 	c.inWrite++
 	if c.inWrite > 1 {
@@ -637,6 +643,17 @@ func (m *outMsg) Len() uint16                       { return uint16(len(m.b)) }
 func (m *outMsg) MarshalBinary() ([]byte, error)    { return m.b, nil }
 func (m *outMsg) UnmarshalBinary(data []byte) error { return nil }
 
+// slowMsg delays the encoding of a message (widens the window between taking a message off Outbound and writing it).
+type slowMsg struct {
+	util.Message
+	d time.Duration
+}
+
+func (m *slowMsg) MarshalBinary() ([]byte, error) {
+	time.Sleep(m.d)
+	return m.Message.MarshalBinary()
+}
+
 func runStreamOut(sc J) J {
 	obs := J{}
 	seed := int64(toInt(sc["seed"]))
@@ -668,6 +685,9 @@ func runStreamOut(sc J) J {
 			if err != nil || m == nil {
 				m = &outMsg{b: b}
 			}
+			if se := toIntOr(sc["slowEvery"], 0); se > 0 && (i+1)%se == 0 {
+				m = &slowMsg{Message: m, d: time.Duration(toIntOr(sc["slowUs"], 500)) * time.Microsecond}
+			}
 			msgs[p] = append(msgs[p], m)
 			encs[p] = append(encs[p], byteList(b))
 			total += len(b)
@@ -675,6 +695,28 @@ func runStreamOut(sc J) J {
 	}
 	obs["msgs"] = encs
 	conn.wbudget = 2*int64(total) + 1<<20
+	if sa := toIntOr(sc["shutdownAfter"], 0); sa > 0 {
+		// the application shuts the stream down while producers are still submitting
+		log.StandardLogger().ExitFunc = func(int) { lg.add(J{"e": "Exit"}); runtime.Goexit() }
+		go func() {
+			for {
+				lg.mu.Lock()
+				n := 0
+				for _, e := range lg.events {
+					if e["e"] == "SE" {
+						n++
+					}
+				}
+				lg.mu.Unlock()
+				if n >= sa {
+					break
+				}
+				time.Sleep(50 * time.Microsecond)
+			}
+			lg.add(J{"e": "Shutdown"})
+			stream.Shutdown <- true
+		}()
+	}
 	if v, ok := sc["writeFaultAt"]; ok && toInt(v) > 0 {
 		fa := toInt(v)
 		conn.faultAt = int64(fa)
@@ -741,4 +783,11 @@ func runStreamOut(sc J) J {
 	default:
 	}
 	return obs
+}
+
+func toIntOr(v interface{}, d int) int {
+	if v == nil {
+		return d
+	}
+	return toInt(v)
 }
